@@ -330,13 +330,20 @@ def run(ctx):
     check_writers(ctx, 'C04.6', 'backends.libwayland_debug_output.parse.Parser', 'known_connections',
                   [('Parser.__init__', lambda w: w.fresh),
                    ('Parser.handle_message', lambda w: (w.kind == 'mutate' and w.via in ('add', 'append', 'setdefault')) or (w.kind == 'substore' and norm(w.stmt.targets[0]) == 'self.known_connections[conn_id]'))], floor=2)
+    # ---- C04.7 tag -> id ------------------------------------------------------------------------------------------------------
+    # a line goes to the connection its <tag> names: the tag is what the `conn` group of the line patterns binds and what message() hands on as
+    # the connection id (C01.11 field provenance, C01.12 what the group can hold) - the findings of C01 about that group are findings here
+    from . import common as _cm47, c01 as _c01_47
+    _cm47.lift(ctx, 'C04.7', 'tag-is-the-connection-id', _c01_47, 'C01', ('C01.11', 'C01.12'), 'a line must be attributed to the connection its tag names',
+               key_filter=lambda k: 'conn' in k, floor=2, soft=True)
+
     # ---- C04.8 the GDB back end ----------------------------------------------------------------------------------------------
     # in GDB mode the connections are opened, given their role and closed by the plugin: that it opens one on first sight, with the role taken
     # from that connection's own first message and nothing remembered from another connection, and forgets the address when the connection is
     # destroyed, is C15.2; its findings are findings here (a GDB-less tree has no such back end: nothing to lift)
     if repo.try_func('Plugin.process_message') is not None:
         from . import common as _cm4, c15 as _c15
-        _cm4.lift(ctx, 'C04.8', 'gdb-back-end-opens-and-closes', _c15, 'C15', ('C15.2',), 'a connection\'s identity and role come from its own address and first message', floor=0)
+        _cm4.lift(ctx, 'C04.8', 'gdb-back-end-opens-and-closes', _c15, 'C15', ('C15.2',), 'a connection\'s identity and role come from its own address and first message', floor=0, soft=True)
 
     return ('effect closure of the ingestion path (no shared mutable state), scenario evaluation of open/close/route, writer '
             'enumeration of the connection tables. Decided: %s. Undecided: %s' % ('; '.join(ctx.decided), '; '.join(ctx.undecided)))
